@@ -1353,7 +1353,7 @@ fn gen_history(rng: &mut Rng, nops: usize, hazard: bool, file: bool) -> History 
                     }
                 }
             }
-            if hazard && batch.len() >= 2 && !s2.live_ok() {
+            if !s2.live_ok() {
                 continue; // the committed state must respect uniqueness even in hazard mode
             }
             if !batch.is_empty() {
@@ -1488,24 +1488,49 @@ fn rewrite_f2(h: &History) -> Option<History> {
     if m.len() < 2 {
         return None;
     }
+    // first transaction: everything that only releases names (recycle, tombstone, and the `Set` members with their
+    // names / external id cleared); second transaction: everything that takes names (the full `Set`s, revives)
     let mut first = vec![];
+    let mut second = vec![];
     for (u, p) in m {
         match p {
             Post::Set(pl) if pl.uuid == *u => {
+                // temporary names nobody else uses, of the same kind (dropping an attribute would trip the
+                // `Value::eq` debug_assert, see the generator)
                 let mut q = pl.clone();
-                for a in [A_NAME, A_SPN, A_GID, A_EXTID] {
-                    q.attrs.remove(&a);
+                if q.attrs.contains_key(&A_NAME) {
+                    q.attrs.insert(A_NAME, vec![PV::S(format!("tmp{u}"))]);
+                }
+                if q.attrs.contains_key(&A_SPN) {
+                    q.attrs.insert(A_SPN, vec![PV::S(format!("tmp{u}@tmp.example"))]);
+                }
+                if q.attrs.contains_key(&A_GID) {
+                    q.attrs.insert(A_GID, vec![PV::N(900_000 + *u)]);
+                }
+                if q.attrs.contains_key(&A_EXTID) {
+                    q.attrs.insert(A_EXTID, vec![PV::S(format!("tmp{u}"))]);
                 }
                 first.push((*u, Post::Set(q)));
+                second.push((*u, p.clone()));
             }
-            _ => return None,
+            Post::Set(_) => return None,
+            Post::Recycle | Post::Tombstone => first.push((*u, p.clone())),
+            Post::Revive => second.push((*u, p.clone())),
         }
     }
     let mut ops = h.ops.clone();
     ops.pop();
-    ops.push(Op::Modify(first));
-    ops.push(Op::Modify(m.clone()));
-    Some(History { layout0: h.layout0.clone(), file: h.file, ops })
+    if !first.is_empty() {
+        ops.push(Op::Modify(first));
+    }
+    if !second.is_empty() {
+        ops.push(Op::Modify(second));
+    }
+    Some(History {
+        layout0: h.layout0.clone(),
+        file: h.file,
+        ops,
+    })
 }
 
 fn shape_f1(h: &History, env: &mut Env) -> bool {
@@ -1810,7 +1835,7 @@ fn main() {
             }
         }
         // random histories
-        let n = args.cases(40, 2000);
+        let n = args.cases(40, 600);
         let mut oracle_found = false;
         let mut model_reported = 0;
         for i in 0..n {
